@@ -876,6 +876,7 @@ func init() {
 	areas["local"] = func(c *Ctx) error {
 		r := NewRng(c.seed)
 		run := func(l string) {
+			c.Note(l)
 			f := strings.Split(l, " ")
 			switch {
 			case len(f) == 2 && f[0] == "ptrip":
